@@ -24,7 +24,10 @@ enum Kind { LEAF,
             CONVERT,
             MOD,  // a % b: remainder of the reps (sign of the dividend), exponent of a
             CMP,  // the six comparisons of two nodes; not an operand of later nodes
-            ASSIGN };  // T y{}; y = x;  (same contract as the converting construction T{x})
+            ASSIGN,  // T y{}; y = x;  (same contract as the converting construction T{x})
+            SHL,  // x << k, k a run-time int held in NodeSpec::b: same type as x, value x * 2^k or the overflow handling
+            INC,  // y = x; ++y (NodeSpec::b == 0) or y++ (1): x + 1 in x's own type, or the overflow handling
+            DEC };
 
 struct NodeSpec {
     int kind;
@@ -104,7 +107,7 @@ inline std::vector<Expect> analyse(Chain const& c, Inputs const& in, int narrowe
     for (NodeSpec const& n : c.nodes) {
         Expect e;
         auto const& A = n.a >= 0 ? ex[static_cast<std::size_t>(n.a)] : e;
-        auto const& B = n.b >= 0 ? ex[static_cast<std::size_t>(n.b)] : e;
+        auto const& B = (n.b >= 0 && n.kind != SHL && n.kind != INC && n.kind != DEC) ? ex[static_cast<std::size_t>(n.b)] : e;
         switch (n.kind) {
         case LEAF:
             e.exponent = n.exponent, e.digits = n.digits;
@@ -145,6 +148,22 @@ inline std::vector<Expect> analyse(Chain const& c, Inputs const& in, int narrowe
             e.value = mkq(r) * qpow(2, e.exponent);
             break;
         }
+        case SHL:
+        case INC:
+        case DEC: {
+            e.exponent = A.exponent, e.digits = A.digits;
+            mpq_class t = n.kind == SHL ? mpq_class(A.value * qpow(2, n.b)) : n.kind == INC ? mpq_class(A.value + 1) : mpq_class(A.value - 1);
+            mpq_class units = t / qpow(2, e.exponent);
+            mpz_class r = units.get_num();  // (integral: the generator only emits ++/-- for exponents <= 0)
+            mpz_class lim = (mpz_class(1) << e.digits) - 1;
+            if (r > lim) e.overflow = true, e.side = 1;
+            if (r < -lim) e.overflow = true, e.side = -1;
+            e.value = mkq(e.overflow ? (e.side > 0 ? lim : mpz_class(-lim)) : r) * qpow(2, e.exponent);
+            // cause region: the shift-left overflow test is the two's-complement one ((x >> (digits - k)) != -1), which lets
+            // -(2^digits) through although the symmetric range of the type ends at -(2^digits - 1)
+            if (n.kind == SHL && r == -lim - 1) e.cause = "shl-result-minus-two-to-digits/";
+            break;
+        }
         case CMP: {
             int ord = cmp(A.value, B.value);
             long m = (ord == 0 ? 1 : 0) | (ord != 0 ? 2 : 0) | (ord < 0 ? 4 : 0) | (ord <= 0 ? 8 : 0) | (ord > 0 ? 16 : 0) | (ord >= 0 ? 32 : 0);
@@ -183,6 +202,9 @@ inline std::vector<Expect> analyse(Chain const& c, Inputs const& in, int narrowe
             if (r < -lim) e.overflow = true, e.side = -1;
             e.value = mkq(e.overflow ? (e.side > 0 ? lim : mpz_class(-lim)) : r) * qpow(2, n.exponent);
             int sh = n.exponent - A.exponent;
+            // cause region: a destination spelled static_integer<...> (NodeSpec::b == -2) built from a static_number with a positive
+            // exponent is not overflow-checked at all: the up-scaled value is stored whatever the declared digits
+            if (n.b == -2 && sh < 0 && e.overflow) e.cause = "static-integer-from-coarser-static-number/";
             // cause region: every digit of the source is shifted out (shift count >= digits of the shifted type)
             if (sh >= A.digits) e.cause = "shift-not-less-than-source-digits/";
             if (!q_is_int(t) && sh > 0) {
@@ -213,7 +235,7 @@ inline std::vector<Expect> analyse(Chain const& c, Inputs const& in, int narrowe
 
 inline char const* kind_name(int k)
 {
-    static char const* n[] = {"leaf", "+", "-", "*", "/", "neg", "convert", "%", "cmp", "assign"};
+    static char const* n[] = {"leaf", "+", "-", "*", "/", "neg", "convert", "%", "cmp", "assign", "<<", "++", "--"};
     return n[k];
 }
 
@@ -248,20 +270,30 @@ inline void check_chain(Chain const& c, int narrowest_digits, Inputs const& in, 
     for (std::size_t i = 0; i < ex.size() && o.region.empty(); ++i)
         if (!ex[i].cause.empty()) o.region = "node(" + std::string(i < c.nodes.size() ? kind_name(c.nodes[i].kind) : "?") + ")/" + ex[i].cause;
     auto where = [&](std::size_t i) { return "node(" + std::string(i < c.nodes.size() ? kind_name(c.nodes[i].kind) : "?") + ")/" + (i < ex.size() ? ex[i].cause : std::string()); };
+    bool trapped = false;
     if (!ok) {
         if (tmp.fclass == "abort:positive overflow" || tmp.fclass == "abort:negative overflow") {
             signal = tmp.fclass == "abort:positive overflow" ? 1 : -1;
             how = "abort";
         } else {
+            trapped = true;  // judged after the nodes recorded before the trap: an earlier wrong value comes first
+        }
+    }
+    auto report_trap = [&] {
+        {
+            if (completed >= ex.size() && ex.back().overflow && c.ovf != O_SATURATED)
+                // the evaluation went on past the node where the oracle expects the overflow signal, and only then ran into something
+                return o.fail(where(ex.size() - 1) + "overflow-not-signalled", "evaluation continued past node " + std::to_string(ex.size() - 1) + " and ended in " + tmp.fclass);
             o.take_failure(tmp);
             o.fclass = where(completed) + o.fclass;
             o.msg += " at node " + std::to_string(completed);
             return;
         }
-    }
+    };
     int ops_done = 0;
     for (std::size_t i = 0; i < ex.size(); ++i) {
         Expect const& e = ex[i];
+        if (trapped && i >= completed) return report_trap();
         if (i >= completed) {
             // evaluation stopped before this node
             if (i == completed && signal != 0) {
@@ -280,7 +312,7 @@ inline void check_chain(Chain const& c, int narrowest_digits, Inputs const& in, 
             continue;
         }
         mpq_class got = mkq(ob.rep) * qpow(2, ob.exponent);
-        if (c.nodes[i].kind == LEAF || c.nodes[i].kind == CONVERT || c.nodes[i].kind == ASSIGN) {
+        if (c.nodes[i].kind == LEAF || c.nodes[i].kind == CONVERT || c.nodes[i].kind == ASSIGN || c.nodes[i].kind == SHL || c.nodes[i].kind == INC || c.nodes[i].kind == DEC) {
             if (ob.digits != e.digits || ob.exponent != e.exponent) return o.fail(where(i) + "type", "digits " + std::to_string(ob.digits) + " exponent " + std::to_string(ob.exponent));
         } else if (ob.exponent != e.exponent) {
             return o.fail(where(i) + "result-exponent", "expected " + std::to_string(e.exponent) + " got " + std::to_string(ob.exponent));
@@ -290,6 +322,7 @@ inline void check_chain(Chain const& c, int narrowest_digits, Inputs const& in, 
         if (abs(ob.rep) > (mpz_class(1) << ob.digits) - 1) return o.fail(where(i) + "value-exceeds-declared-digits", "rep " + zstr(ob.rep) + " digits " + std::to_string(ob.digits));
         if (c.nodes[i].kind != LEAF) ++ops_done;
     }
+    if (trapped) return report_trap();
     if (signal != 0) return o.fail("end/overflow-signalled-after-all-nodes", how);
     if (completed != c.nodes.size()) return o.fail("end/trace-length", std::to_string(completed));
     bool saturated = false;
